@@ -228,4 +228,54 @@ def Mem.run (m : Mem) : List Op → List Out
   | [] => []
   | op :: ops => let r := Mem.step m op; r.2 :: Mem.run r.1 ops
 
+/-! ## batch handles
+
+`NewBatch()` returns a handle that lives on: operations are recorded with `Set`/`Delete`, and
+`Write` may be called any number of times, with other operations in between. On the unchanged
+tree BOTH backends keep the recorded operations after `Write` (`memDBBatch.ops` is never cleared;
+goleveldb's `leveldb.Batch` keeps its records unless `Reset` is called, and `goLevelDBBatch.Write`
+does not call it), so a second `Write` REPLAYS every operation recorded so far. -/
+
+abbrev Handles := List (Nat × List BOp)
+
+def hGet (hs : Handles) (h : Nat) : List BOp :=
+  match hs.find? (fun e => e.1 == h) with
+  | some e => e.2
+  | none => []
+
+def hSet (hs : Handles) (h : Nat) (ops : List BOp) : Handles := (h, ops) :: hs.filter (fun e => e.1 != h)
+
+inductive HOp where
+  | plain (op : Op)
+  | bnew (h : Nat)
+  | bset (h : Nat) (k : Bytes) (v : Option Bytes)
+  | bdel (h : Nat) (k : Bytes)
+  | bwrite (h : Nat)
+  deriving Repr, DecidableEq
+
+/-- bookkeeping of the handles (identical on both backends) -/
+def hStep (hs : Handles) : HOp → Handles
+  | .bnew h => hSet hs h []
+  | .bset h k v => hSet hs h (hGet hs h ++ [.set k v])
+  | .bdel h k => hSet hs h (hGet hs h ++ [.del k])
+  | _ => hs
+
+def Mem.stepH (st : Mem × Handles) : HOp → (Mem × Handles) × Out
+  | .plain op => let r := Mem.step st.1 op; ((r.1, st.2), r.2)
+  | .bwrite h => ((Mem.batch st.1 (hGet st.2 h), st.2), .ok)     -- replays all recorded ops; they are kept
+  | op => ((st.1, hStep st.2 op), .ok)
+
+def Spec.stepH (st : Spec × Handles) : HOp → (Spec × Handles) × Out
+  | .plain op => let r := Spec.step st.1 op; ((r.1, st.2), r.2)
+  | .bwrite h => ((Spec.batch st.1 (hGet st.2 h), st.2), .ok)    -- no Reset after Write: the records stay
+  | op => ((st.1, hStep st.2 op), .ok)
+
+def Mem.runH (st : Mem × Handles) : List HOp → List Out
+  | [] => []
+  | op :: ops => let r := Mem.stepH st op; r.2 :: Mem.runH r.1 ops
+
+def Spec.runH (st : Spec × Handles) : List HOp → List Out
+  | [] => []
+  | op :: ops => let r := Spec.stepH st op; r.2 :: Spec.runH r.1 ops
+
 end BytomModel.KV
